@@ -425,6 +425,38 @@ pub fn run(ctx: &Ctx) -> Outcome {
                             a.finding(f);
                         }
                     }
+                    // touching tokens: each gap removed where the token sequence stays the same (`$a$b`, `a:b`, `)(`)
+                    if let Ok(toks) = rlex(b) {
+                        for w in toks.windows(2) {
+                            if w[0].end < w[1].start {
+                                let text = format!("{}{}", &b[..w[0].end], &b[w[1].start..]);
+                                if let Ok(t2) = rlex(&text) {
+                                    if t2.len() == toks.len() && t2.iter().zip(&toks).all(|(x, y)| x.kind == y.kind && x.text(&text) == y.text(b)) {
+                                        if let Some(f) = check_any_text(&text, &mut a) {
+                                            a.finding(f);
+                                        }
+                                    }
+                                }
+                            }
+                        }
+                    }
+                    // what FOLLOWS the text (in the exploration the first bad token is always the last token): a token
+                    // of every kind appended, touching the text where that leaves the tokens as they are, else after a blank
+                    if let Ok(toks) = rlex(b) {
+                        for suffix in ["$U", "x", "_", ":", "::", ",", "(", ")", "{", "}", "<", ">", "#[a]", "start"] {
+                            for gap in ["", " "] {
+                                let text = format!("{b}{gap}{suffix}");
+                                if let Ok(t2) = rlex(&text) {
+                                    if t2.len() == toks.len() + 1 && t2.iter().zip(&toks).all(|(x, y)| x.kind == y.kind && x.text(&text) == y.text(b)) && t2[toks.len()].text(&text) == suffix {
+                                        if let Some(f) = check_any_text(&text, &mut a) {
+                                            a.finding(f);
+                                        }
+                                        break; // the touching form if it exists, else the separated one
+                                    }
+                                }
+                            }
+                        }
+                    }
                     // one token of variable length made huge (its own length crosses 2^8 / 2^16)
                     if let Ok(toks) = rlex(b) {
                         if toks.len() <= 4 {
